@@ -199,14 +199,24 @@ func c14Parse(d *Decl, text string, ignore bool) (map[string]string, []CallEntry
 	if ignore {
 		b.P.Options |= flags.IgnoreUnknown
 	}
+	if c14WithHandler {
+		// an unknown-option handler is a command-line hook: INI reading reports unknown options and sections all the same
+		b.P.UnknownOptionHandler = func(option string, arg flags.SplitArgument, args []string) ([]string, error) {
+			return args, nil
+		}
+	}
 	var err error
 	pi := safely(func() { err = flags.NewIniParser(b.P).Parse(strings.NewReader(text)) })
 	return d.Snapshot(), b.Log.E, err, pi
 }
 
+// c14WithHandler: the parsers of the current case carry an UnknownOptionHandler (C14 cases run one at a time).
+var c14WithHandler bool
+
 func c14Run(c *Ctx) {
 	r := c.R
 	mode := c.K % 4
+	c14WithHandler = (c.K/4)%3 == 1
 	d := GenDecl(c.Sub("d"), c14Cfg())
 	if inHistTail(c, 40000, 1600000) {
 		// one IniParser used for two reads while the program changes the model in between
@@ -477,7 +487,7 @@ func c14Fault(c *Ctx, d *Decl, noisy []string, meta []iniLine, crlf int) {
 		if fault == "unconvertible" {
 			line = name + " = " + r.Pick([]string{"!!", "1!", "--", "9999999999999999999999999999999999999999999999!"})
 		} else {
-			line = name + " = k:\"unterminated"
+			line = name + " = " + r.Pick([]string{"k:\"unterminated", "k:\"", "k:\"a\"b\"", "k:\"\\q\""})
 		}
 	case "unknown-section":
 		line = fmt.Sprintf("[No Such Group %d]", r.Intn(100))
